@@ -10,6 +10,7 @@ OPS = {
     "checkscript": ("keep;",),
     "deletescript": ("s",),
     "setactive": ("s",),
+    "setactive-none": ("",),   # SETACTIVE "" (deactivate): an operation like any other
     "renamescript": ("a", "b"),
     "listscripts": (),
     "getscript": ("a",),
@@ -97,7 +98,7 @@ def status_task(t):
                 srv.close_after_bye = True
             s.client.errcode = None
             s.client.errmsg = b""
-            o = s.call(op, *OPS[op])
+            o = s.call(op.split("-")[0], *OPS[op])
             n += 1
             distinct.add((label, di, o.key()))
             bad = judge(op, di, code, rcode, text, o, ns)
